@@ -3,7 +3,8 @@
 From KV Require Import Lib.Bytes Model.Headers Model.Parser Model.Body Model.Server
   Spec.HeaderStore Spec.HttpGrammar Spec.ChunkedSpec Spec.Framing Spec.ConnSpec Spec.ConnKnown
   Proofs.Headers Proofs.ParserSound Proofs.ParserSafe Proofs.BodyBase Proofs.BodyBaseChunk
-  Proofs.ServerFraming Proofs.ServerConnBase Proofs.ServerConnSrc Proofs.ServerConnBody Proofs.ServerConnHead.
+  Proofs.ServerFraming Proofs.ServerConnBase Proofs.ServerConnSrc Proofs.ServerConnBody Proofs.ServerConnHead
+  Proofs.ServerHead.
 
 (* ------------------------------------------------------------------ the close token of an accepted head *)
 Lemma sc_headers_of_hrun_gen : forall fs h,
@@ -157,51 +158,126 @@ Proof.
     unfold run_handler. destruct (behaviour_of a r) as [|k|st| | | | | |n] eqn:Eb.
     + (* BAll *)
       destruct (read_to_end_VB later (body_fuel b0) b0 [] payload payload HV eq_refl Hlt) as [b' [_ [E2 [HV' HR']]]].
-      rewrite body_fuel_bext, E2. cbn [o_resps o_keep o_ok o_rest o_eof existsb rs_close ev orb negb].
+      rewrite body_fuel_bext, E2. cbn [o_resps o_keep o_ok o_rest o_eof existsb rs_close ev orb negb]. rewrite ?(located_VB later b' _ _ HV').
       split; [reflexivity|]. split; [intros _; destruct ka, (eval_close raw); reflexivity|]. split; [discriminate|]. split; [reflexivity|].
       exact (drop_pos later reqsegs b0 b' _ _ Hfull Ht0 HR' HV').
     + (* BReadK *)
       destruct (read_k_VB later (body_fuel b0) k b0 [] payload payload HV eq_refl Hlt) as [b' [_ [E2 [HV' HR']]]].
       cbn [List.app] in E2, HV'.
-      rewrite body_fuel_bext, E2. cbn [o_resps o_keep o_ok o_rest o_eof existsb rs_close ev orb negb].
+      rewrite body_fuel_bext, E2. cbn [o_resps o_keep o_ok o_rest o_eof existsb rs_close ev orb negb]. rewrite ?(located_VB later b' _ _ HV').
       split; [reflexivity|]. split; [intros _; destruct ka, (eval_close raw); reflexivity|]. split; [discriminate|]. split; [reflexivity|].
       exact (drop_pos later reqsegs b0 b' _ _ Hfull Ht0 HR' HV').
     + (* BNone *)
-      cbn [o_resps o_keep o_ok o_rest o_eof existsb rs_close ev orb negb].
+      cbn [o_resps o_keep o_ok o_rest o_eof existsb rs_close ev orb negb]. rewrite ?(located_VB later b0 _ _ HV).
       split; [reflexivity|]. split; [intros _; destruct ka, (eval_close raw); reflexivity|]. split; [discriminate|]. split; [reflexivity|].
       exact (drop_pos later reqsegs b0 b0 _ _ Hfull Ht0 (R_refl _) HV).
     + (* BFirst *)
       destruct (read_to_end_VB later (body_fuel b0) b0 [] payload payload HV eq_refl Hlt) as [b' [_ [E2 [HV' HR']]]].
-      rewrite body_fuel_bext, E2. cbn [o_resps o_keep o_ok o_rest o_eof existsb rs_close ev orb negb].
+      rewrite body_fuel_bext, E2. cbn [o_resps o_keep o_ok o_rest o_eof existsb rs_close ev orb negb]. rewrite ?(located_VB later b' _ _ HV').
       split; [reflexivity|]. split; [intros _; destruct ka, (eval_close raw); reflexivity|]. split; [discriminate|]. split; [reflexivity|].
       exact (drop_pos later reqsegs b0 b' _ _ Hfull Ht0 HR' HV').
     + (* BHold *)
-      cbn [o_resps o_keep o_ok o_rest o_eof existsb rs_close ev orb negb].
+      cbn [o_resps o_keep o_ok o_rest o_eof existsb rs_close ev orb negb]. rewrite ?(located_VB later b0 _ _ HV).
       split; [reflexivity|]. split; [intros _; destruct ka, (eval_close raw); reflexivity|]. split; [discriminate|]. split; [reflexivity|].
       exact (drop_pos later reqsegs b0 b0 _ _ Hfull Ht0 (R_refl _) HV).
     + (* BErr *)
-      cbn [o_resps o_keep o_ok o_rest o_eof existsb rs_close ev orb negb].
+      cbn [o_resps o_keep o_ok o_rest o_eof existsb rs_close ev orb negb]. rewrite ?(located_VB later b0 _ _ HV).
       split; [reflexivity|]. split; [discriminate|]. split; [reflexivity|]. split; [reflexivity|].
       exact (drop_pos later reqsegs b0 b0 _ _ Hfull Ht0 (R_refl _) HV).
     + (* BErrAfter *)
-      cbn [o_resps o_keep o_ok o_rest o_eof existsb rs_close ev orb negb].
+      cbn [o_resps o_keep o_ok o_rest o_eof existsb rs_close ev orb negb]. rewrite ?(located_VB later b0 _ _ HV).
       split; [reflexivity|]. split; [discriminate|]. split; [reflexivity|]. split; [reflexivity|].
       exact (drop_pos later reqsegs b0 b0 _ _ Hfull Ht0 (R_refl _) HV).
     + (* BClose *)
-      cbn [o_resps o_keep o_ok o_rest o_eof existsb rs_close ev orb negb].
+      cbn [o_resps o_keep o_ok o_rest o_eof existsb rs_close ev orb negb]. rewrite ?(located_VB later b0 _ _ HV).
       split; [reflexivity|]. split; [intros _; destruct ka, (eval_close raw); reflexivity|]. split; [discriminate|]. split; [reflexivity|].
       exact (drop_pos later reqsegs b0 b0 _ _ Hfull Ht0 (R_refl _) HV).
     + (* BReader *)
-      cbn [o_resps o_keep o_ok o_rest o_eof existsb rs_close ev orb negb].
+      cbn [o_resps o_keep o_ok o_rest o_eof existsb rs_close ev orb negb]. rewrite ?(located_VB later b0 _ _ HV).
       split; [reflexivity|]. split; [intros _; destruct ka, (eval_close raw); reflexivity|]. split; [discriminate|]. split; [reflexivity|].
       exact (drop_pos later reqsegs b0 b0 _ _ Hfull Ht0 (R_refl _) HV).
   - (* the hook answers *)
-    cbn [o_resps o_keep o_ok o_rest o_eof existsb rs_close ev orb negb].
+    cbn [o_resps o_keep o_ok o_rest o_eof existsb rs_close ev orb negb]. rewrite ?(located_VB later b0 _ _ HV).
     split; [reflexivity|]. split; [intros _; destruct ka, (eval_close raw); reflexivity|]. split; [discriminate|]. split; [reflexivity|].
     exact (drop_pos later reqsegs b0 b0 _ _ Hfull Ht0 (R_refl _) HV).
-  - cbn [o_resps o_keep o_ok o_rest o_eof existsb rs_close ev orb negb].
+  - cbn [o_resps o_keep o_ok o_rest o_eof existsb rs_close ev orb negb]. rewrite ?(located_VB later b0 _ _ HV).
     split; [reflexivity|]. split; [intros _; destruct ka, (eval_close raw); reflexivity|]. split; [discriminate|]. split; [reflexivity|].
     exact (drop_pos later reqsegs b0 b0 _ _ Hfull Ht0 (R_refl _) HV).
+Qed.
+
+(* (fix F21) the new cause of closing never applies to a well-framed request: whatever the handler reads, the discard of
+   the rest reaches the end of the body *)
+Theorem wellframed_located : forall a N reqsegs later r raw buf rest,
+  parse_request (firstn N (concat reqsegs)) = Ok r ->
+  raw = raw_fields (firstn N (concat reqsegs)) ->
+  (exists payload, rfc_framing raw <> FReject /\
+     view_body (rfc_framing raw) (skipn (q_offset r) (concat reqsegs)) = BodyOk payload []) ->
+  read_request (S (length (reqsegs ++ later)) + length (concat (reqsegs ++ later))) N [] (reqsegs ++ later)
+    = (RParsed buf r, rest) ->
+  let b := from_request (skipn (q_offset r) buf) rest (q_hdrs r) in
+  located false b = true /\ end_located a r b = true.
+Proof.
+  intros a N reqsegs later r raw buf0 rest0 Hparse Hraw [payload [Hnr Hview]] Hrr0.
+  destruct (read_request_split (S (length (reqsegs ++ later)) + length (concat (reqsegs ++ later))) N reqsegs later r Hparse)
+    as [buf [unread [Hrr [Hcat [Htail [Hlen Hpb]]]]]].
+  { rewrite concat_app, !app_length. lia. }
+  unfold bytes in *. rewrite Hrr in Hrr0. inversion Hrr0. subst buf0 rest0. clear Hrr0.
+  pose proof (framing_decision _ _ Hparse) as Hfr. rewrite <- Hraw in Hfr.
+  destruct (request_fields_safe _ _ Hpb) as [Hoff _].
+  assert (Hah : skipn (q_offset r) (concat reqsegs) = skipn (q_offset r) buf ++ concat unread).
+  { rewrite <- Hcat, skipn_app. replace (q_offset r - length buf) with 0 by lia. reflexivity. }
+  rewrite Hah in *.
+  destruct (init_VB later (skipn (q_offset r) buf) unread (q_hdrs r) payload) as [b0 [Hb0 [HV [Hfull Hsegs]]]].
+  { rewrite Hfr. exact Hnr. }
+  { rewrite Hfr. exact Hview. }
+  assert (Hlt : length payload < body_fuel b0).
+  { destruct (VB_rest _ _ _ HV) as [q [Hq Hl]]. cbn [List.app] in Hq. subst q. exact Hl. }
+  cbv zeta. rewrite Hb0. split; [exact (located_VB later b0 _ _ HV)|].
+  unfold end_located, reader_after_handler.
+  destruct (behaviour_of a r) as [|k|st| | | | | |n]; try exact (located_VB later b0 _ _ HV).
+  - destruct (read_to_end_VB later (body_fuel b0) b0 [] payload payload HV eq_refl Hlt) as [b' [_ [E2 [HV' _]]]].
+    rewrite body_fuel_bext, E2. cbn [read_failed]. exact (located_VB later b' _ _ HV').
+  - destruct (read_k_VB later (body_fuel b0) k b0 [] payload payload HV eq_refl Hlt) as [b' [_ [E2 [HV' _]]]].
+    cbn [List.app] in E2, HV'.
+    rewrite body_fuel_bext, E2. cbn [read_failed]. exact (located_VB later b' _ _ HV').
+  - destruct (read_to_end_VB later (body_fuel b0) b0 [] payload payload HV eq_refl Hlt) as [b' [_ [E2 [HV' _]]]].
+    rewrite body_fuel_bext, E2. cbn [read_failed]. exact (located_VB later b' _ _ HV').
+Qed.
+
+(* ... so that for a well-framed request the keep-alive decision has exactly the four causes it had before the repair *)
+Theorem keep_decision_wellframed : forall a N ka reqsegs later r raw,
+  parse_request (firstn N (concat reqsegs)) = Ok r ->
+  raw = raw_fields (firstn N (concat reqsegs)) ->
+  (exists payload, rfc_framing raw <> FReject /\
+     view_body (rfc_framing raw) (skipn (q_offset r) (concat reqsegs)) = BodyOk payload []) ->
+  let o := handle_one_request a N ka (reqsegs ++ later) in
+  o_keep o = (o_ok o && negb (connection_close (q_hdrs r)) && ka && negb (existsb rs_close (o_resps o))).
+Proof.
+  intros a N ka reqsegs later r raw Hparse Hraw Hbody.
+  destruct (read_request_split (S (length (reqsegs ++ later)) + length (concat (reqsegs ++ later))) N reqsegs later r Hparse)
+    as [buf [unread [Hrr _]]].
+  { rewrite concat_app, !app_length. lia. }
+  destruct (wellframed_located a N reqsegs later r raw buf (unread ++ later) Hparse Hraw Hbody Hrr) as [L1 L2].
+  cbv zeta in L1, L2.
+  pose proof (framing_decision _ _ Hparse) as Hfr. rewrite <- Hraw in Hfr.
+  assert (Hte : te_present (q_hdrs r) && negb (te_final_chunked (q_hdrs r)) = false).
+  { destruct (te_present (q_hdrs r) && negb (te_final_chunked (q_hdrs r))) eqn:E; [|reflexivity].
+    exfalso. destruct Hbody as [payload [Hnr _]]. apply Hnr. rewrite <- Hfr. unfold server_framing'. rewrite E. reflexivity. }
+  cbv zeta. destruct (hook_of a r) eqn:Eh.
+  - pose proof (keep_decision a N ka (reqsegs ++ later) buf r (unread ++ later) Hrr Hte Eh) as K. cbv zeta in K.
+    rewrite K, L2, andb_true_r. reflexivity.
+  - assert (Hh : hook_of a r <> HProceed) by (rewrite Eh; discriminate).
+    pose proof (keep_decision_hook a N ka (reqsegs ++ later) buf r (unread ++ later) Hrr Hte Hh) as K. cbv zeta in K.
+    rewrite K, L1, andb_true_r.
+    assert (Hok : o_ok (handle_one_request a N ka (reqsegs ++ later)) = true).
+    { unfold handle_one_request. unfold bytes in *. rewrite Hrr, Hte, Eh. reflexivity. }
+    rewrite Hok. reflexivity.
+  - assert (Hh : hook_of a r <> HProceed) by (rewrite Eh; discriminate).
+    pose proof (keep_decision_hook a N ka (reqsegs ++ later) buf r (unread ++ later) Hrr Hte Hh) as K. cbv zeta in K.
+    rewrite K, L1, andb_true_r.
+    assert (Hok : o_ok (handle_one_request a N ka (reqsegs ++ later)) = true).
+    { unfold handle_one_request. unfold bytes in *. rewrite Hrr, Hte, Eh. reflexivity. }
+    rewrite Hok. reflexivity.
 Qed.
 
 (* segments without bytes *)
